@@ -151,6 +151,10 @@ class Exec:
             mm = re.match(r"^\((_\d+) as (\w+)\)$", base)
             if mm:
                 v = env.get(mm.group(1))
+                if v is not None and v.kind == "opt":
+                    if mm.group(2) != v.some_name or idx != 0:
+                        raise Unsupported("projection of the empty variant of " + base)
+                    return v.val
                 if v is None or v.kind != "variant":
                     raise Unsupported("variant projection of " + base)
                 if v.variant != mm.group(2):
@@ -200,6 +204,8 @@ class Exec:
             v = env[m.group(1)]
             if v.kind == "variant":
                 return BV(64, bv(64, v.index))
+            if v.kind == "opt":
+                return BV(64, "(ite %s %s %s)" % (v.some, bv(64, v.some_idx), bv(64, 1 - v.some_idx)))
             raise Unsupported("discriminant of " + repr(v))
         m = re.match(r"^std::result::Result::<.*>::Ok\((.*)\)$", rhs)
         if m:
@@ -443,6 +449,56 @@ class Exec:
             self._attach(parent, pc, n)
             res = Val("opaque", tag="unit") if op == "store" else BV(w, "@R%d@" % n.id)
             return res, n, "true", None, heap
+        m = re.match(r"^core::num::<impl (\w+)>::(wrapping_add|wrapping_sub|wrapping_mul|saturating_add|saturating_sub|checked_add|checked_sub|"
+                     r"overflowing_add|min|max|pow)$", c)
+        if m and m.group(1) in WIDTH and m.group(1).startswith("u"):
+            w = WIDTH[m.group(1)]
+            a, b = A(0), A(1)
+            if a.kind != "bv" or b.kind != "bv":
+                raise Unsupported("integer method on " + repr(a))
+            op = m.group(2)
+            x, y = a.s, b.s
+            add, sub = "(bvadd %s %s)" % (x, y), "(bvsub %s %s)" % (x, y)
+            ovf, unf = "(bvult %s %s)" % (add, x), "(bvult %s %s)" % (x, y)
+            if op == "wrapping_add":
+                r = BV(w, add)
+            elif op == "wrapping_sub":
+                r = BV(w, sub)
+            elif op == "wrapping_mul":
+                r = BV(w, "(bvmul %s %s)" % (x, y))
+            elif op == "saturating_add":
+                r = BV(w, "(ite %s %s %s)" % (ovf, bv(w, (1 << w) - 1), add))
+            elif op == "saturating_sub":
+                r = BV(w, "(ite %s %s %s)" % (unf, bv(w, 0), sub))
+            elif op == "checked_add":
+                r = Val("opt", some="(not %s)" % ovf, val=BV(w, add), some_idx=1, some_name="Some")
+            elif op == "checked_sub":
+                r = Val("opt", some="(not %s)" % unf, val=BV(w, sub), some_idx=1, some_name="Some")
+            elif op == "overflowing_add":
+                r = Val("tuple", items=[BV(w, add), BOOL(ovf)])
+            elif op == "min":
+                r = BV(w, "(ite (bvule %s %s) %s %s)" % (x, y, x, y))
+            elif op == "max":
+                r = BV(w, "(ite (bvuge %s %s) %s %s)" % (x, y, x, y))
+            else:
+                raise Unsupported("integer method " + op)
+            return r, parent, pc, hook, heap
+        m = re.match(r"^<(\w+) as (?:std::convert::)?TryFrom<(\w+)>>::try_from$", c)
+        if m and m.group(1) in WIDTH and m.group(2) in WIDTH and m.group(1).startswith("u") and m.group(2).startswith("u"):
+            wt, wf = WIDTH[m.group(1)], WIDTH[m.group(2)]
+            a = A(0)
+            if a.kind != "bv" or a.w != wf:
+                raise Unsupported("try_from operand")
+            if wt >= wf:
+                v = a if wt == wf else BV(wt, "((_ zero_extend %d) %s)" % (wt - wf, a.s))
+                return Val("opt", some="true", val=v, some_idx=0, some_name="Ok"), parent, pc, hook, heap
+            return (Val("opt", some="(bvule %s %s)" % (a.s, bv(wf, (1 << wt) - 1)), val=BV(wt, "((_ extract %d 0) %s)" % (wt - 1, a.s)),
+                        some_idx=0, some_name="Ok"), parent, pc, hook, heap)
+        if re.match(r"^(std::result::)?Result::<.*>::unwrap_or$|^(std::option::)?Option::<.*>::unwrap_or$", c):
+            v, d = A(0), A(1)
+            if v.kind != "opt" or d.kind != "bv" or v.val.kind != "bv":
+                raise Unsupported("unwrap_or on " + repr(v))
+            return BV(d.w, "(ite %s %s %s)" % (v.some, v.val.s, d.s)), parent, pc, hook, heap
         if re.search(r"<erltf::Atom as Clone>::clone$|<Atom as Clone>::clone$", c):
             return Val("opaque", tag="atom"), parent, pc, hook, heap
         if re.search(r"ExternalPid::new$", c):
